@@ -753,9 +753,9 @@ def _glom_match(target, spec, scope):
                 return target
         except Exception as e:
             raise MatchError(
-                "{0}({1!r}) did not validate (got exception {2!r})", spec.__name__, target, e)
+                "{0}({1!r}) did not validate (got exception {2!r})", getattr(spec, '__name__', bbrepr(spec)), target, e)
         raise MatchError(
-            "{0}({1!r}) did not validate (non truthy return)", spec.__name__, target)
+            "{0}({1!r}) did not validate (non truthy return)", getattr(spec, '__name__', bbrepr(spec)), target)
     elif target != spec:
         raise MatchError("{0!r} does not match {1!r}", target, spec)
     return target
